@@ -1,6 +1,9 @@
 package main
 
 import (
+	"go/ast"
+	"go/types"
+	"golang.org/x/tools/go/packages"
 	"encoding/json"
 	"flag"
 	"fmt"
@@ -182,19 +185,45 @@ func (r *Run) run(pd *PropDef) int {
 			if r.Only != "" && !strings.Contains(unit, r.Only) {
 				continue
 			}
-			fd := r.L.FindFunc(p, c.Key)
+			key := c.Key
+			if c.LitGen != "" {
+				key = c.LitGen
+			}
+			fd := r.L.FindFunc(p, key)
 			if fd == nil || fd.Body == nil {
 				r.engineError("contract target %s does not exist in the current tree", unit)
 				continue
 			}
-			res := VerifyFunc(r.L, r.DB, p, fd, c, r.Prop)
-			r.Units = append(r.Units, res)
-			r.FuncsUC = append(r.FuncsUC, unit)
-			if res.Err != "" {
-				r.engineError("%s: %s", unit, res.Err)
+			var results []*UnitResult
+			if c.LitGen != "" {
+				lits := selectLits(p, fd, c.LitSel)
+				if len(lits) == 0 {
+					r.engineError("contract target %s: no function literal matches %q in the current tree", unit, c.LitSel)
+					continue
+				}
+				for i, l := range lits {
+					suffix := ""
+					if len(lits) > 1 {
+						suffix = fmt.Sprintf("#%d", i+1)
+					}
+					results = append(results, VerifyUnit(r.L, r.DB, p, fd, l, suffix, c, r.Prop))
+				}
+			} else {
+				results = append(results, VerifyFunc(r.L, r.DB, p, fd, c, r.Prop))
 			}
-			r.Obls = append(r.Obls, res.Obls...)
-			r.Assumes = append(r.Assumes, res.Assumes...)
+			for _, res := range results {
+				r.Units = append(r.Units, res)
+				r.FuncsUC = append(r.FuncsUC, unit)
+				if res.Err != "" {
+					r.engineError("%s: %s", unit, res.Err)
+				}
+				for _, o := range res.Obls {
+					if o.Prop == r.Prop {
+						r.Obls = append(r.Obls, o)
+					}
+				}
+				r.Assumes = append(r.Assumes, res.Assumes...)
+			}
 		}
 	}
 	if pd.Extra != nil {
@@ -325,6 +354,22 @@ func (r *Run) report(pd *PropDef) int {
 	}
 	base := r.loadBaseline()
 	code := 0
+	confirmed := map[string]bool{}
+	if r.Thorough && len(known) > 0 && r.L != nil && r.L.ByName["interp"] != nil {
+		var names []string
+		for n := range known {
+			names = append(names, n)
+		}
+		sort.Strings(names)
+		if out, ok := runScenarios(r.Repo, r.Verif, names); ok {
+			for _, n := range names {
+				if strings.Contains(out, "REPLAY-MISMATCH "+n) {
+					confirmed[n] = true
+				}
+			}
+		}
+		r.Extra["known_findings_reconfirmed_on_real_code"] = len(confirmed)
+	}
 	seen := map[string]bool{}
 	viol := 0
 	canary := map[string]bool{}
@@ -354,7 +399,11 @@ func (r *Run) report(pd *PropDef) int {
 			continue
 		}
 		if k, ok := known[o.Name]; ok {
-			fmt.Printf("KNOWN-FINDING: property=%s %s — %s (witness: %s)\n", r.Prop, o.Name, k.What, k.Witness)
+			extra := ""
+			if confirmed[o.Name] {
+				extra = " [witness re-confirmed on the real code]"
+			}
+			fmt.Printf("KNOWN-FINDING: property=%s %s — %s (witness: %s)%s\n", r.Prop, o.Name, k.What, k.Witness, extra)
 			continue
 		}
 		// not discharged and not known
@@ -428,4 +477,82 @@ func cmdBaseline(args []string) int {
 	os.WriteFile(filepath.Join(r.Verif, "baseline", prop+".json"), append(data, '\n'), 0o644)
 	fmt.Printf("baseline %s: %d discharged obligations recorded (check exit %d)\n", prop, len(r.dischargedNames()), code)
 	return 0
+}
+
+// selectLits picks function literals of fd by selector:
+//   calls:<name>   outermost literals whose own body (nested literals excluded) calls <name>
+//   exec#<k>       k-th literal assigned to a selector named exec (n.exec = func...)
+//   makefunc#<k>   k-th literal passed to reflect.MakeFunc
+func selectLits(p *packages.Package, fd *ast.FuncDecl, sel string) []*ast.FuncLit {
+	var out []*ast.FuncLit
+	switch {
+	case strings.HasPrefix(sel, "calls:"):
+		want := strings.TrimPrefix(sel, "calls:")
+		var visit func(n ast.Node, top bool)
+		directCalls := func(l *ast.FuncLit) bool {
+			found := false
+			ast.Inspect(l.Body, func(n ast.Node) bool {
+				if _, ok := n.(*ast.FuncLit); ok {
+					return false
+				}
+				if c, ok := n.(*ast.CallExpr); ok {
+					switch f := c.Fun.(type) {
+					case *ast.Ident:
+						if f.Name == want {
+							found = true
+						}
+					case *ast.SelectorExpr:
+						if f.Sel.Name == want || types.ExprString(f) == want {
+							found = true
+						}
+					}
+				}
+				return true
+			})
+			return found
+		}
+		visit = func(n ast.Node, top bool) {
+			ast.Inspect(n, func(m ast.Node) bool {
+				if l, ok := m.(*ast.FuncLit); ok {
+					if directCalls(l) {
+						out = append(out, l)
+						return false
+					}
+				}
+				return true
+			})
+		}
+		visit(fd.Body, true)
+	case strings.HasPrefix(sel, "exec#"), strings.HasPrefix(sel, "makefunc#"):
+		var k int
+		kind := sel[:strings.Index(sel, "#")]
+		fmt.Sscanf(sel[strings.Index(sel, "#")+1:], "%d", &k)
+		n := 0
+		ast.Inspect(fd.Body, func(m ast.Node) bool {
+			switch m := m.(type) {
+			case *ast.AssignStmt:
+				if kind == "exec" && len(m.Lhs) == 1 && len(m.Rhs) == 1 {
+					if se, ok := m.Lhs[0].(*ast.SelectorExpr); ok && se.Sel.Name == "exec" {
+						if l, ok := m.Rhs[0].(*ast.FuncLit); ok {
+							n++
+							if n == k {
+								out = append(out, l)
+							}
+						}
+					}
+				}
+			case *ast.CallExpr:
+				if kind == "makefunc" && types.ExprString(m.Fun) == "reflect.MakeFunc" && len(m.Args) == 2 {
+					if l, ok := m.Args[1].(*ast.FuncLit); ok {
+						n++
+						if n == k {
+							out = append(out, l)
+						}
+					}
+				}
+			}
+			return true
+		})
+	}
+	return out
 }
